@@ -74,9 +74,23 @@ impl Drop for SometimesWiped {
         }
     }
 }
+// wipes by-value copies of the fields, not the fields
+pub struct CopyWiped {
+    s: u128,
+    t: u128,
+}
+impl Drop for CopyWiped {
+    fn drop(&mut self) {
+        let Self { mut s, mut t } = *self;
+        s.zeroize();
+        t.zeroize();
+    }
+}
 pub struct NeverWiped {
     iv: Array<u8, U16>,
 }
 impl BlockSizeUser for NeverWiped {
     type BlockSize = U16;
 }
+
+pub mod modes;
